@@ -44,7 +44,7 @@ def ensure_ast():
     fcntl.flock(lock, fcntl.LOCK_EX)
     try:
         if os.path.exists(path): return path, key
-        for old in glob.glob(os.path.join(CACHE, 'ast-*')) + glob.glob(os.path.join(CACHE, 'unit-*')):
+        for old in glob.glob(os.path.join(CACHE, 'ast-*')) + glob.glob(os.path.join(CACHE, 'unit-*')) + glob.glob(os.path.join(CACHE, 'res-*')):
             try: os.remove(old)
             except OSError: pass
         tmp = path + '.tmp%d' % os.getpid()
@@ -116,7 +116,38 @@ def run(cmd, timeout, cwd=None, mem_gb=12):
     except subprocess.TimeoutExpired as e:
         return -9, (e.stdout or b'').decode() if isinstance(e.stdout, bytes) else (e.stdout or ''), 'TIMEOUT', time.time() - t0
 
+def _content_key():
+    parts = []
+    for d in (SPECS, HARNESS):
+        for f in sorted(os.listdir(d)):
+            fp = os.path.join(d, f)
+            if os.path.isfile(fp) and not f.endswith('.pyc'): parts += [f.encode(), read(fp)]
+    parts.append(read(os.path.join(TOOLS, 'vp.py')))
+    return sha(*parts)
+
+_CK = None
 def run_obligation(ob, units, astinfo, workdir, tier):
+    """cached wrapper: the verdict of an obligation is a function of (/repo/include + driver TU, lowering tools,
+    specs, harnesses, models, runner, defines, tier); a later property check in the same tree state reuses it"""
+    global _CK
+    if _CK is None: _CK = _content_key()
+    key = sha(astinfo[1], tools_key(), _CK, json.dumps({k: v for k, v in ob.items() if k != 'run'}, sort_keys=True, default=str), tier)
+    cp = os.path.join(CACHE, 'res-%s.json' % key)
+    if os.environ.get('VP_NOCACHE') != '1' and os.path.exists(cp):
+        try:
+            r = json.load(open(cp)); r['cached'] = True
+            if r['status'] == 'fail' and not os.path.exists(r.get('gb', '')): pass   # need a fresh run for the trace
+            else: return r
+        except Exception: pass
+    r = _run_obligation(ob, units, astinfo, workdir, tier)
+    if r['status'] in ('pass', 'fail'):
+        try:
+            tmp = cp + '.tmp%d' % os.getpid()
+            json.dump(r, open(tmp, 'w'), default=str); os.replace(tmp, cp)
+        except Exception: pass
+    return r
+
+def _run_obligation(ob, units, astinfo, workdir, tier):
     """returns dict(name, status in {'pass','fail','undecided'}, checks=[...], failed=[...], secs, detail)"""
     name = ob['name']
     res = {'name': name, 'kind': ob['kind'], 'props': ob['props'], 'status': 'undecided', 'failed': [], 'secs': 0.0, 'detail': '',
@@ -159,10 +190,13 @@ def run_obligation(ob, units, astinfo, workdir, tier):
             if rc != 0: raise Undecided('goto-instrument failed:\n' + (out + err)[-3000:])
             cur = nxt
         flags = ['--bounds-check', '--pointer-check', '--pointer-primitive-check', '--div-by-zero-check', '--json-ui', '--no-built-in-assertions'] if False else \
-                ['--bounds-check', '--pointer-check', '--div-by-zero-check', '--json-ui']
+                ['--bounds-check', '--pointer-check', '--div-by-zero-check', '--no-malloc-may-fail', '--object-bits', '10', '--json-ui']
         flags += ob.get('cbmc_flags', [])
         unwind = ob.get('unwind_' + tier, ob.get('unwind'))
-        if unwind: flags += ['--unwind', str(unwind), '--unwinding-assertions']
+        if unwind:
+            flags += ['--unwind', str(unwind), '--unwinding-assertions']
+            lb = stats.get('loop_bounds', [])
+            if lb: flags += ['--unwindset', ','.join('%s.%d:%d' % (f, o, b) for f, o, b in lb)]
         timeout = ob.get('timeout_' + tier, ob.get('timeout', 900))
         rc, out, err, secs = run(['cbmc', cur] + flags, timeout)
         open(os.path.join(wd, 'cbmc.json'), 'w').write(out)
@@ -183,15 +217,26 @@ def run_obligation(ob, units, astinfo, workdir, tier):
         if bad_log: raise Undecided('cbmc log has forbidden warnings: %s' % bad_log[:5])
         if checks is None: raise Undecided('cbmc produced no result (rc=%d): %s' % (rc, '; '.join(log)[-1500:]))
         res['n_checks'] = len(checks)
+        for ch in checks:
+            d = ch.get('description', '')
+            if ch.get('status') == 'FAILURE' and ('unwinding assertion' in d or 'recursion unwinding' in d):
+                raise Undecided('unwinding bound too small for this tree: %s (%s)' % (d, ch.get('property')))
         reach_seen = 0
+        entry_fn = ob.get('entry', 'main')
         for ch in checks:
             d = ch.get('description', ''); st = ch.get('status')
+            fn = ch.get('sourceLocation', {}).get('function')
             if d.startswith('REACH'):
+                if fn != entry_fn: continue            # marker of another entry point of the same harness file
                 reach_seen += 1
                 res['reach'].append({'description': d, 'reached': st == 'FAILURE'})
-                if st != 'FAILURE':
+                # 'REACH!' markers are mandatory in every run; plain 'REACH' markers must be reached in at
+                # least one heap-shape variant of the obligation (checked by the caller over the group)
+                if st != 'FAILURE' and (d.startswith('REACH!') or not ob.get('group')):
                     raise Undecided('vacuity: reachability marker not reachable: %s' % d)
                 continue
+            if st == 'FAILURE' and ('unwinding assertion' in d or 'recursion unwinding' in d):
+                raise Undecided('unwinding bound too small for this tree: %s (%s)' % (d, ch.get('property')))
             if st == 'FAILURE':
                 res['failed'].append({'property': ch.get('property'), 'description': d, 'loc': ch.get('sourceLocation', {})})
             elif st not in ('SUCCESS',):
